@@ -1,6 +1,6 @@
 """Which lemma files, static obligations and bounded stand-ins decide which property."""
 
-ENGINE = ["contracts/engine_laws.py", "contracts/event_laws.py"]
+ENGINE = ["contracts/engine_laws.py", "contracts/event_laws.py", "contracts/mirror_laws.py"]
 
 PROPS = {
     "C02": {"level": "proof", "lemma_files": ENGINE, "conformance": []},
